@@ -11,12 +11,14 @@ theorem prefix_openPrefixes {b b' : Builder} {pfx : Str} {uri : StrSpan} {sp : S
   unfold Builder.prefix at h
   split at h
   · cases h
-  · dsimp only at h
-    split at h
+  · split at h
     · cases h
-    · split at h
+    · dsimp only at h
+      split at h
       · cases h
-      · simp only [Step.ok.injEq] at h; subst h; rfl
+      · split at h
+        · cases h
+        · simp only [Step.ok.injEq] at h; subst h; rfl
 
 theorem attribute_openPrefixes {b b' : Builder} {pfx loc value : StrSpan}
     (h : b.attribute pfx loc value = .ok b') : b'.openPrefixes = b.openPrefixes := by
@@ -156,8 +158,11 @@ theorem openPrefixes_step {b b' : Builder} {t : Token} (h : b.step t = .ok b') :
   | comment t sp =>
     simp only [Builder.step, Step.ok.injEq] at h; subst h; rfl
   | pi target content sp =>
-    simp only [Builder.step, Step.ok.injEq] at h; subst h
-    simp only [Builder.processingInstruction, Builder.addLeaf]
+    simp only [Builder.step] at h
+    split at h
+    · cases h
+    · simp only [Step.ok.injEq] at h; subst h
+      simp only [Builder.processingInstruction, Builder.addLeaf]
   | declaration v e s sp =>
     simp only [Builder.step] at h
     split at h
